@@ -259,33 +259,35 @@ theorem resume_must_clear :
 
 /-! ### the repaired shapes (F13, F53) -/
 
-def noLog (l : List String) : List String := l.filter fun x => !x.startsWith "log."
-
-/-- `Parser.WaitClose` is the loop that takes `closed` or discards a sequence (`drain`), and on a
-closed channel waits for `closed`; `Parser.Close` sends the close signal; `emit` is the bare send the
-LTS blocks on; after its loop `run` emits `EOF`, closes the channel and sends `closed` — the steps
-`emitEOF`, `signalClosed` of the LTS. -/
+/-- `Parser.WaitClose` is the loop that takes `closed` and returns, or discards a sequence (label
+`drain`); `Parser.Close` sends the close signal; `emit` is the bare send the LTS blocks on; after its
+loop `run` emits `EOF`, closes the channel and sends `closed` — the steps `emitEOF`, `signalClosed`
+of the LTS. -/
 theorem waitclose_drains :
-    Gen.Conc.shape_Parser_WaitClose = ["for {", "select {", "case <-p.closed:", "return", "case _, ok := <-p.sequences:",
-      "if !ok {", "<-p.closed", "return", "}", "}", "}"] ∧
+    waitDrainsOf Gen.Conc.shape_Parser_WaitClose = true ∧
     Gen.Conc.shape_Parser_Close = ["p.close <- true"] ∧
     Gen.Conc.shape_Parser_emit = ["p.sequences <- seq"] ∧
-    Gen.Conc.shape_Parser_runTail.drop 6 = ["p.emit(EOF{})", "close(p.sequences)", "p.closed <- true"] := by decide +kernel
+    Gen.Conc.shape_Parser_runTail.reverse.take 3 = ["p.closed <- true", "close(p.sequences)", "p.emit(EOF{})"] := by decide +kernel
 
-/-- The input goroutine: deferred `recover → Close → panic` (label `panic`); `select` over the parser
-arm — it returns when the channel is closed (`!ok`) and on `EOF`, otherwise handles the sequence —,
-the SIGWINCH arm (one blocking post, label `winch`) and the kill arm (`Close; return`, label `kill`). -/
+/-- The input goroutine: its parser arm returns when the channel is closed (`!ok`); the arms of its
+`select` are the parser, SIGWINCH (label `winch`) and the kill signal (label `kill`); it starts with
+the deferred `recover → Close → panic` (label `panic`). -/
 theorem input_loop_leaves_on_closed_channel :
-    Gen.Conc.shape_inputLoop = ["defer func {", "if err := recover(); err != nil {", "vx.Close()", "panic(err)", "}", "}",
-      "for {", "select {", "case seq, ok := <-parser.Next():", "if !ok {", "return", "}", "switch seq := seq.(type) {",
-      "case ansi.EOF:", "return", "default:", "vx.handleSequence(seq)", "parser.Finish(seq)", "}",
-      "case <-vx.chSigWinSz:", "atomicStore(&vx.resize, true)", "vx.PostEventBlocking(Redraw{})",
-      "case <-vx.chSigKill:", "vx.Close()", "return", "}", "}"] := by decide +kernel
+    leavesOnClosedOf Gen.Conc.shape_inputLoop = true ∧
+    selectArmsOf Gen.Conc.shape_inputLoop = ["case seq, ok := <-parser.Next():", "case <-vx.chSigWinSz:", "case <-vx.chSigKill:"] ∧
+    Gen.Conc.shape_inputLoop.take 6 = ["defer func {", "if err := recover(); err != nil {", "vx.Close()", "panic(err)", "}", "}"] ∧
+    (Gen.Conc.shape_inputLoop.dropWhile (· != "case <-vx.chSigKill:")).take 3 = ["case <-vx.chSigKill:", "vx.Close()", "return"] ∧
+    (Gen.Conc.shape_inputLoop.dropWhile (· != "case <-vx.chSigWinSz:")).take 3 =
+      ["case <-vx.chSigWinSz:", "atomicStore(&vx.resize, true)", "vx.PostEventBlocking(Redraw{})"] := by decide +kernel
 
 /-- `PostEventBlocking` is a `select` over the send and `<-vx.chQuit` (label `quit`), without a
-`default`; `PostEvent` is the `select` with `default` (logging aside). -/
+`default`; `PostEvent` is the `select` with `default`. -/
 theorem blocking_post_selects_quit :
-    noLog Gen.Conc.shape_PostEventBlocking = ["select {", "case vx.queue <- ev:", "case <-vx.chQuit:", "}"] ∧
-    noLog Gen.Conc.shape_PostEvent = ["select {", "case vx.queue <- ev:", "return", "default:", "}"] := by decide +kernel
+    postQuitArmOf Gen.Conc.shape_PostEventBlocking = true ∧ postNonBlockingOf Gen.Conc.shape_PostEvent = true := by decide +kernel
+
+/-- Non-vacuity of the observers: the shapes before the repairs are rejected. -/
+example : waitDrainsOf ["<-p.closed"] = false ∧
+    leavesOnClosedOf ["for {", "select {", "case seq := <-parser.Next():", "switch seq := seq.(type) {"] = false ∧
+    postQuitArmOf ["vx.queue <- ev"] = false := by decide
 
 end VaxisModel.Props.C10Shutdown
